@@ -35,8 +35,15 @@ fn key_bytes(k: u8) -> Vec<u8> {
     vec![b'k', k]
 }
 
+/// Value shapes: mostly a unique printable string; every fifth value is the EMPTY byte string
+/// (a key written with it exists and must be distinguished from a key never written), every
+/// fifth a single zero byte.
 fn val_bytes(v: u32) -> Vec<u8> {
-    format!("v{:08}", v).into_bytes()
+    match v % 5 {
+        0 => Vec::new(),
+        1 => vec![0u8],
+        _ => format!("v{:08}", v).into_bytes(),
+    }
 }
 
 pub async fn run(sc: &Scenario, dir: &str) -> RunReport {
